@@ -1,24 +1,25 @@
 """C12 — a crashed run leaves a loadable prefix backup and restarts without rework.
 
-Implementation side: real MDOScenario / DOEScenario runs in CHILD PROCESSES
-(`/venv/bin/python harness/c12_child.py spec.json`) built from harness disciplines
-(harness/c12_disc.py) whose k-th execution calls `os._exit(1)`.  For one configuration
-(scenario x backup mode x initial file) the harness runs
-  E  (optional) an earlier, shorter run that leaves a backup file,
-  U  the uninterrupted run (traced: requests, discipline executions, store / new-iteration events),
-  C_k the run killed inside its k-th discipline execution (every k in the thorough tier, ~6 in quick),
-  R_k the restart of C_k in a new process with `load=True`.
+Implementation side: real MDOScenario / DOEScenario runs in CHILD PROCESSES (harness/c12_child.py:
+one fresh OS process per run, forked from a server that has only imported GEMSEO) built from
+harness disciplines (harness/c12_disc.py) whose k-th execution calls `os._exit(1)`.  For one
+configuration (scenario x backup mode x initial file x kind of crash point) the harness runs
+  E    (optional) an earlier, shorter run that leaves a backup file (then loaded, or erased),
+  U    the uninterrupted run (traced: requests, discipline executions, store / new-iteration events),
+  C_k  the run killed inside its k-th discipline execution (every k in the thorough tier, ~8 in quick),
+  R_k  the restart of C_k in a new process with `load=True` (traced),
+  C_k,k2 / R_k,k2  (chains) the restart killed again inside its k2-th execution, and its restart.
 Oracle (property text, computed from the traces with plain dicts — never from the model):
-  the backup left by C_k loads (Database.from_hdf and OptimizationProblem.from_hdf) and equals the
-  database the uninterrupted run had at its last backup notification before the k-th execution (in
-  function-call mode: exactly the evaluations completed); R_k executes a discipline at a stored point
-  at most once per output still missing there; keeps the loaded entries; reports an optimum at least
-  as good as the best loaded one; and, for deterministic algorithms on an unnormalised space, ends
-  with the history of U.
+  the backup left by a killed run loads (Database.from_hdf and OptimizationProblem.from_hdf) and equals
+  the database the uninterrupted run had at its last backup notification before the k-th execution
+  (function-call mode: exactly the evaluations completed); the restart executes a discipline at a
+  stored point at most once per output still missing there; keeps the loaded entries; reports an
+  optimum at least as good as the best loaded one; and, for deterministic algorithms on an
+  unnormalised space, ends with the history of the uninterrupted run.
 Model side: the traced request sequences are replayed in Driver/C12.lean (C12 model on top of the
 C11 file model); the model must reproduce every outcome (served / computed / budget stop), every
 new-iteration event, the database after every request, the file content at every crash point
-(through the truncated event trace), the loaded database and counter of the restart, the final
+(through the truncated event trace), the loaded database and counter of every restart, the final
 database, the final file and the reported optimum.
 """
 
@@ -28,9 +29,9 @@ import atexit
 import copy
 import json
 import os
+import queue
 import shutil
 import subprocess
-import sys
 import tempfile
 import time
 from collections import OrderedDict
@@ -58,6 +59,8 @@ TRUSTED_EXTRA = (
     "traced through the public ProblemFunction.evaluate / jac and replayed in the model",
     "C12: each-iteration mode read as 'the iterations notified' (DESIGN.md); the stricter reading is counted in the "
     "evidence (strict_reading_*), never reported as a violation",
+    "C12: child runs are forked from a server process that has imported GEMSEO and instantiated the algorithm / "
+    "formulation factories only (no scenario, problem or discipline exists before the fork)",
 )
 
 _WORKDIRS: list[str] = []
@@ -80,16 +83,22 @@ def workdir() -> Path:
 # --------------------------------------------------------------------------- scenarios
 
 
-def _poly(rng, n, quad=True, scale=1):
+def _poly(rng, n, quad=True):
     return {
         "c": float(rng.dyadic(-2, 2, 1)),
-        "a": [float(rng.dyadic(-2, 2, 1)) * scale for _ in range(n)],
+        "a": [float(rng.dyadic(-2, 2, 1)) for _ in range(n)],
         "q": [float(rng.pick([0.5, 1.0, 2.0])) if quad else 0.0 for _ in range(n)],
     }
 
 
 def make_scenario(rng: common.Rng, family: str, size: int) -> dict[str, Any]:
-    """One in-scope scenario of a family. All coefficients and samples are dyadic (exact floats)."""
+    """One in-scope scenario of a family. All coefficients and samples are dyadic (exact floats).
+
+    Family name = tokens joined by '-': doe|mdo, mdf (MDF chain D0 -> Df, Dg), nocache (every function
+    evaluation executes the disciplines: crash points between two functions of one point), obs (an
+    observable), vec (vector-valued constraint), max (maximised objective), eq (an equality
+    constraint too), norm / unnorm (SLSQP on the normalised / physical space)."""
+    toks = family.split("-")
     two_vars = rng.chance(0.4)
     if two_vars:
         variables = [
@@ -102,29 +111,39 @@ def make_scenario(rng: common.Rng, family: str, size: int) -> dict[str, Any]:
                       "x0": [float(rng.dyadic(-2, 2, 1)), float(rng.dyadic(-2, 2, 1))]}]
         inputs = [["x", 2]]
     sc: dict[str, Any] = {"family": family, "variables": variables, "objective": "f"}
-    doe = family.startswith("doe")
+    doe = toks[0] == "doe"
     sc["kind"] = "doe" if doe else "mdo"
-    sc["nocache"] = "nocache" in family
-    mdf = "mdf" in family
+    sc["nocache"] = "nocache" in toks
+    mdf = "mdf" in toks
     sc["formulation"] = "MDF" if mdf else "DisciplinaryOpt"
-    with_obs = rng.chance(0.6) if doe else ("obs" in family)
+    sc["maximize"] = "max" in toks
+    sc["db_objective"] = "-f" if sc["maximize"] else "f"
+    with_obs = "obs" in toks
+    n_in = 3 if mdf else 2
+    gpoly: Any = _poly(rng, n_in, quad=False)
+    if "vec" in toks:
+        gpoly = [gpoly, _poly(rng, n_in, quad=False)]
+    fpoly = _poly(rng, n_in)
+    if sc["maximize"]:
+        fpoly["q"] = [-q for q in fpoly["q"]]
     if mdf:
-        # D0: y = affine(x); Df, Dg use (x, y)
         d0 = {"name": "D0", "inputs": inputs, "outputs": {"y": _poly(rng, 2, quad=False)}}
         ins2 = [*inputs, ["y", 1]]
-        discs = [d0,
-                 {"name": "Df", "inputs": ins2, "outputs": {"f": _poly(rng, 3)}},
-                 {"name": "Dg", "inputs": ins2, "outputs": {"g": _poly(rng, 3, quad=False)}}]
+        discs = [d0, {"name": "Df", "inputs": ins2, "outputs": {"f": fpoly}},
+                 {"name": "Dg", "inputs": ins2, "outputs": {"g": gpoly}}]
     else:
-        discs = [{"name": "Df", "inputs": inputs, "outputs": {"f": _poly(rng, 2)}},
-                 {"name": "Dg", "inputs": inputs, "outputs": {"g": _poly(rng, 2, quad=False)}}]
+        discs = [{"name": "Df", "inputs": inputs, "outputs": {"f": fpoly}},
+                 {"name": "Dg", "inputs": inputs, "outputs": {"g": gpoly}}]
+    sc["constraints"] = [["g", "ineq"]]
+    if "eq" in toks:
+        discs.append({"name": "Dh", "inputs": inputs, "outputs": {"h": _poly(rng, 2, quad=False)}})
+        sc["constraints"].append(["h", "eq"])
     if with_obs:
         discs.append({"name": "Do", "inputs": inputs, "outputs": {"o": _poly(rng, 2, quad=False)}})
         sc["observables"] = ["o"]
     sc["disciplines"] = discs
-    sc["constraints"] = [["g", "ineq"]]
     if doe:
-        pts = []
+        pts: list[list[float]] = []
         while len(pts) < size:
             p = [float(rng.dyadic(-3, 3, 2)), float(rng.dyadic(-3, 3, 2))]
             if p not in pts:
@@ -135,13 +154,11 @@ def make_scenario(rng: common.Rng, family: str, size: int) -> dict[str, Any]:
         sc["algo"] = {"algo_name": "CustomDOE", "samples": pts}
         sc["normalized"] = False
         sc["deterministic"] = True
-        sc["budget"] = len(pts)
     else:
-        normalized = "norm" in family and "unnorm" not in family
+        normalized = "norm" in toks
         sc["algo"] = {"algo_name": "SLSQP", "max_iter": size, "normalize_design_space": normalized}
         sc["normalized"] = normalized
         sc["deterministic"] = not normalized
-        sc["budget"] = size
     return sc
 
 
@@ -149,43 +166,58 @@ def earlier_algo(sc: dict[str, Any], rng: common.Rng) -> dict[str, Any]:
     """A shorter run of the same scenario (leaves the pre-existing backup file)."""
     a = copy.deepcopy(sc["algo"])
     if "samples" in a:
-        a["samples"] = a["samples"][: max(1, rng.randint(1, max(1, len(a["samples"]) // 2)))]
+        a["samples"] = a["samples"][: rng.randint(1, max(1, len(a["samples"]) // 2))]
     else:
-        a["max_iter"] = max(1, rng.randint(1, max(1, a["max_iter"] // 2)))
+        a["max_iter"] = rng.randint(1, max(1, a["max_iter"] // 2))
     return a
 
 
-FAMILIES_QUICK = ["doe-chain", "doe-nocache", "mdo-unnorm", "mdo-norm", "doe-mdf", "mdo-unnorm-nocache"]
-FAMILIES_THOROUGH = [*FAMILIES_QUICK, "mdo-unnorm-obs", "mdo-mdf-unnorm", "doe-mdf-nocache", "mdo-norm-nocache"]
-# families whose `same history` clause is a known limitation are listed in notes/C12.md
+FAMILIES_QUICK = ["doe", "doe-nocache-obs", "doe-mdf-vec", "doe-max-obs", "mdo-unnorm", "mdo-norm",
+                  "mdo-unnorm-nocache", "mdo-unnorm-obs"]
+FAMILIES_THOROUGH = [*FAMILIES_QUICK, "doe-obs-eq", "doe-big", "mdo-mdf-unnorm-vec", "doe-mdf-nocache",
+                     "mdo-norm-nocache-obs", "mdo-unnorm-max-eq", "mdo-unnorm-nocache-obs"]
+MODES = {"call": (True, False), "iter": (False, True), "both": (True, True)}
+
+
+def family_size(rng, fam: str) -> int:
+    toks = fam.split("-")
+    if "big" in toks:
+        return 12
+    if "nocache" in toks:
+        return rng.randint(3, 4)
+    return rng.randint(4, 6)
+
+
+def make_cfg(sc, mode: str, pre: str, rng, crash_in="run", chain=0) -> dict[str, Any]:
+    ec, ei = MODES[mode]
+    cfg = {"scenario": sc, "each_call": ec, "each_iter": ei, "pre": pre, "crash_in": crash_in, "chain": chain}
+    if pre in ("earlier", "erase"):
+        cfg["earlier_algo"] = earlier_algo(sc, rng)
+    cfg["label"] = f"{sc['family']}/{mode}/{pre}" + ("/jac" if crash_in == "jac" else "")
+    return cfg
 
 
 def gen_configs(rng: common.Rng, thorough: bool) -> list[dict[str, Any]]:
     cfgs = []
     fams = FAMILIES_THOROUGH if thorough else FAMILIES_QUICK
-    for fam in fams:
-        doe = fam.startswith("doe")
-        nocache = "nocache" in fam
-        if doe:
-            size = rng.randint(3, 4) if nocache else rng.randint(4, 6)
-        else:
-            size = rng.randint(3, 4) if nocache else rng.randint(4, 6)
-        sc = make_scenario(rng, fam, size)
-        modes = [(True, False), (False, True)]
+    for i, fam in enumerate(fams):
+        sc = make_scenario(rng, fam, family_size(rng, fam))
+        mdo = fam.startswith("mdo")
         if thorough:
-            modes.append((True, True))
-            pres = ["absent", "earlier"]
-            combos = [(m, p) for m in modes for p in pres]
+            combos = [(m, p) for m in ("call", "iter", "both") for p in ("absent", "earlier")] + [("call", "erase"), ("iter", "erase")]
         else:
-            # quick: both modes, the initial-file dimension alternates
-            p0 = rng.pick(["absent", "earlier"])
-            combos = [(modes[0], p0), (modes[1], "earlier" if p0 == "absent" else "absent")]
-        for (ec, ei), pre in combos:
-            cfg = {"scenario": sc, "each_call": ec, "each_iter": ei, "pre": pre}
-            if pre == "earlier":
-                cfg["earlier_algo"] = earlier_algo(sc, rng)
-            cfg["label"] = f"{fam}/{'call' if ec else ''}{'iter' if ei else ''}/{pre}"
-            cfgs.append(cfg)
+            # quick: both modes; the initial-file dimension rotates with the family and the seed
+            pres = ["absent", "earlier", "absent", "earlier", "erase"]
+            j = rng.randint(0, 4)
+            combos = [("call", pres[(i + j) % 5]), ("iter", pres[(i + j + 1) % 5])]
+            if rng.chance(0.25):
+                combos.append(("both", pres[(i + j + 2) % 5]))
+        for mode, pre in combos:
+            cfgs.append(make_cfg(sc, mode, pre, rng, chain=3 if thorough else 1))
+        if mdo and (thorough or rng.chance(0.5)):
+            # the process dies inside a Jacobian computation of a discipline
+            for mode in (("call", "iter") if thorough else (rng.pick(["call", "iter"]),)):
+                cfgs.append(make_cfg(sc, mode, rng.pick(["absent", "earlier"]), rng, crash_in="jac"))
     return cfgs
 
 
@@ -200,16 +232,13 @@ class Server:
                                   stdin=subprocess.PIPE, stdout=subprocess.PIPE, stderr=subprocess.DEVNULL, text=True)
         self.ready = False
 
-    def wait_ready(self):
+    def run(self, spec_path: str) -> int:
         if not self.ready:
             line = self.p.stdout.readline()
             if line.strip() != "ready":
                 msg = f"c12 child server did not start: {line!r}"
                 raise RuntimeError(msg)
             self.ready = True
-
-    def run(self, spec_path: str) -> int:
-        self.wait_ready()
         self.p.stdin.write(spec_path + "\n")
         self.p.stdin.flush()
         line = self.p.stdout.readline()
@@ -227,13 +256,9 @@ class Server:
 
 
 class Servers:
-    """A pool of servers; `with servers.get() as s:` borrows one."""
-
     def __init__(self, n: int):
-        import queue
-
         self.all = [Server() for _ in range(n)]
-        self.q = queue.Queue()
+        self.q: queue.Queue = queue.Queue()
         for s in self.all:
             self.q.put(s)
 
@@ -252,6 +277,21 @@ class Servers:
 SERVERS: Servers | None = None
 
 
+def servers() -> Servers:
+    global SERVERS
+    if SERVERS is None:
+        SERVERS = Servers(N_WORKERS)
+        atexit.register(close_servers)
+    return SERVERS
+
+
+def close_servers():
+    global SERVERS
+    if SERVERS is not None:
+        SERVERS.close()
+        SERVERS = None
+
+
 def run_child(spec: dict[str, Any], wd: Path, tag: str) -> dict[str, Any]:
     """Run one child process; returns its exit code, its event log and its result (None if it died)."""
     spec = dict(spec)
@@ -260,19 +300,11 @@ def run_child(spec: dict[str, Any], wd: Path, tag: str) -> dict[str, Any]:
     sp = wd / f"{tag}.spec"
     sp.write_text(json.dumps(spec))
     t0 = time.time()
+    rc = servers().run(str(sp))
     err = ""
-    if SERVERS is not None:
-        rc = SERVERS.run(str(sp))
-        ep = Path(str(sp) + ".err")
-        if ep.exists():
-            err = ep.read_text()[-1500:]
-    else:
-        try:
-            p = subprocess.run([PY, CHILD, str(sp)], cwd=str(common.VERIF), env=dict(os.environ), capture_output=True,
-                               text=True, timeout=CHILD_TIMEOUT)
-            rc, err = p.returncode, p.stderr[-1500:]
-        except subprocess.TimeoutExpired:
-            rc, err = -9, "timeout"
+    ep = Path(str(sp) + ".err")
+    if ep.exists():
+        err = ep.read_text()[-1500:]
     events = []
     lp = Path(spec["log"])
     if lp.exists():
@@ -288,13 +320,13 @@ def run_child(spec: dict[str, Any], wd: Path, tag: str) -> dict[str, Any]:
     return {"rc": rc, "stderr": err, "events": events, "out": out, "wall": time.time() - t0}
 
 
-def base_spec(cfg, algo, path: Path, load: bool, crash_k=None, crash_in="run", trace=True, keep_counter=False):
+def make_spec(cfg, algo, path: Path, load=False, erase=False, crash_k=None, trace=True, keep_counter=False):
     sc = dict(cfg["scenario"])
     sc["algo"] = algo
     spec = {
         "scenario": sc,
-        "backup": {"path": str(path), "each_iter": cfg["each_iter"], "each_call": cfg["each_call"], "load": load},
-        "crash_k": crash_k, "crash_in": crash_in, "trace": trace,
+        "backup": {"path": str(path), "each_iter": cfg["each_iter"], "each_call": cfg["each_call"], "load": load, "erase": erase},
+        "crash_k": crash_k, "crash_in": cfg.get("crash_in", "run"), "trace": trace,
     }
     if keep_counter:
         spec["algo_extra"] = {"reset_iteration_counters": False}
@@ -302,8 +334,6 @@ def base_spec(cfg, algo, path: Path, load: bool, crash_k=None, crash_in="run", t
 
 
 # --------------------------------------------------------------------------- canonical databases
-
-Db = "OrderedDict[tuple, dict[str, tuple]]"
 
 
 def canon(dump) -> OrderedDict:
@@ -314,13 +344,12 @@ def canon(dump) -> OrderedDict:
 
 
 def load_backup(path: Path):
-    """Load a backup file with the public API, in the parent. Returns (db | None, problem_ok, error)."""
+    """Load a backup file with the public API, in the parent. Returns (db | None, ok, error)."""
     if not path.exists():
         return OrderedDict(), True, "absent"
+    import numpy as np
     from gemseo.algos.database import Database
     from gemseo.algos.optimization_problem import OptimizationProblem
-
-    import numpy as np
 
     try:
         d = Database.from_hdf(str(path), log=False)
@@ -350,6 +379,10 @@ def show_db(db) -> str:
     return ";".join(parts)
 
 
+def fl(x) -> list[float]:
+    return [float(t) for t in x]
+
+
 def db_equal(a, b) -> str:
     """'' when equal (points in order, same names, same values), else a short description."""
     ka, kb = list(a), list(b)
@@ -359,14 +392,38 @@ def db_equal(a, b) -> str:
         return "points differ or are in a different order"
     for x in ka:
         if set(a[x]) != set(b[x]):
-            return f"at {[float(t) for t in x]}: outputs {sorted(a[x])} instead of {sorted(b[x])}"
+            return f"at {fl(x)}: outputs {sorted(a[x])} instead of {sorted(b[x])}"
         for n in a[x]:
             if a[x][n] != b[x][n]:
-                return f"at {[float(t) for t in x]}: value of {n} differs"
+                return f"at {fl(x)}: value of {n} differs"
     return ""
 
 
+def only_observables_missing(r_final, u_final, loaded, observables) -> bool:
+    """The restarted history differs from the uninterrupted one only by observables that are missing at
+    points which were already (partially) in the loaded backup."""
+    if list(r_final) != list(u_final) or not observables:
+        return False
+    found = False
+    for x in u_final:
+        for n, v in u_final[x].items():
+            if n in r_final[x]:
+                if r_final[x][n] != v:
+                    return False
+            elif n in observables and x in loaded:
+                found = True
+            else:
+                return False
+        if set(r_final[x]) - set(u_final[x]):
+            return False
+    return found
+
+
 # --------------------------------------------------------------------------- traces
+
+
+def crash_kind(cfg) -> str:
+    return "jac" if cfg.get("crash_in") == "jac" else "call"
 
 
 def design_names(sc) -> list[str]:
@@ -377,9 +434,9 @@ def call_point(sc, ev) -> tuple:
     return tuple(F(t) for n in design_names(sc) for t in ev["in"][n])
 
 
-def split_requests(events) -> list[dict[str, Any]]:
-    """Group a traced event log into requests: name, point, discipline executions, what it stored."""
-    reqs = []
+def split_requests(events, ck: str) -> list[dict[str, Any]]:
+    """Group a traced event log into requests: name, point, crash-point events, what it stored."""
+    reqs: list[dict[str, Any]] = []
     cur = None
     for ev in events:
         k = ev["ev"]
@@ -388,16 +445,13 @@ def split_requests(events) -> list[dict[str, Any]]:
             reqs.append(cur)
         elif cur is None:
             continue
-        elif k == "call":
-            # a call belongs to the innermost request in progress = the last request issued
-            cur["calls"].append(ev["k"])
+        elif k == ck:
+            cur["calls"].append(ev["k"])  # belongs to the innermost request in progress
         elif k == "store":
-            # the store of the last request whose (name, point) matches and which has not stored yet
             x = tuple(F(t) for t in ev["x"])
             for r in reversed(reqs):
                 if r["x"] == x and not r["stored"] and r["name"] in ev["names"]:
                     r["stored"] = True
-                    r["n"] = ev["n"]
                     r["names"] = list(ev["names"])
                     break
         elif k == "newiter":
@@ -409,20 +463,20 @@ def split_requests(events) -> list[dict[str, Any]]:
     return reqs
 
 
-def replay_trace(events, pre_db, final_db, each_call: bool, each_iter: bool, stop_k: int | None):
-    """Plain-dict replay of a traced run up to (excluding) the `stop_k`-th discipline execution.
+def copy_db(db):
+    return OrderedDict((x, dict(o)) for x, o in db.items())
 
-    Returns (database of completed evaluations, database at the last backup notification).
+
+def replay_trace(events, pre_db, final_db, each_call: bool, each_iter: bool, ck: str, stop_k: int | None):
+    """Plain-dict replay of a traced run up to (excluding) its `stop_k`-th crash-point event.
+
+    Returns (database of the completed evaluations, database at the last backup notification).
     Values are those the uninterrupted run records (`final_db`)."""
-    db = OrderedDict((x, dict(o)) for x, o in pre_db.items())
-    snap = OrderedDict((x, dict(o)) for x, o in db.items())
-
-    def cp():
-        return OrderedDict((x, dict(o)) for x, o in db.items())
-
+    db = copy_db(pre_db)
+    snap = copy_db(db)
     for ev in events:
         k = ev["ev"]
-        if k == "call" and stop_k is not None and ev["k"] == stop_k:
+        if k == ck and stop_k is not None and ev["k"] == stop_k:
             break
         if k == "store":
             x = tuple(F(t) for t in ev["x"])
@@ -431,9 +485,9 @@ def replay_trace(events, pre_db, final_db, each_call: bool, each_iter: bool, sto
                 if n not in ent:
                     ent[n] = final_db[x][n]
             if each_call:
-                snap = cp()
+                snap = copy_db(db)
         elif k == "newiter" and each_iter:
-            snap = cp()
+            snap = copy_db(db)
     return db, snap
 
 
@@ -441,41 +495,62 @@ def replay_trace(events, pre_db, final_db, each_call: bool, each_iter: bool, sto
 
 
 def run_config(cfg: dict[str, Any], ks_spec, pool: ThreadPoolExecutor, wd: Path) -> dict[str, Any]:
-    """Run E (optional), U, then C_k and R_k for the chosen crash points."""
+    """Run E (optional), U, then C_k and R_k for the chosen crash points (+ chains)."""
     sc = cfg["scenario"]
-    out: dict[str, Any] = {"cfg": cfg, "crashes": {}}
+    ck = crash_kind(cfg)
+    out: dict[str, Any] = {"cfg": cfg, "crashes": {}, "chains": {}}
     base = None
-    pre = cfg["pre"] == "earlier"
-    if pre:
+    pre = cfg["pre"]
+    if pre in ("earlier", "erase"):
         base = wd / "E.h5"
-        out["E"] = run_child(base_spec(cfg, cfg["earlier_algo"], base, load=False), wd, "E")
-        if out["E"]["rc"] != 0 or out["E"]["out"] is None or out["E"]["out"]["error"]:
-            out["machinery"] = f"earlier run failed: rc={out['E']['rc']} {out['E']['stderr'][-300:]} {out['E']['out'] and out['E']['out']['error']}"
+        out["E"] = E = run_child(make_spec(cfg, cfg["earlier_algo"], base), wd, "E")
+        if E["rc"] != 0 or E["out"] is None or E["out"]["error"]:
+            out["machinery"] = f"earlier run failed: rc={E['rc']} {E['stderr'][-300:]} {E['out'] and E['out']['error']}"
             return out
+    load, erase = pre == "earlier", pre == "erase"
     upath = wd / "U.h5"
-    if pre:
+    if base is not None and base.exists():
         shutil.copy(base, upath)
-    out["U"] = run_child(base_spec(cfg, sc["algo"], upath, load=pre, keep_counter=pre), wd, "U")
-    U = out["U"]
+    out["U"] = U = run_child(make_spec(cfg, sc["algo"], upath, load=load, erase=erase, keep_counter=load), wd, "U")
     if U["rc"] != 0 or U["out"] is None:
         out["machinery"] = f"uninterrupted run failed: rc={U['rc']} {U['stderr'][-400:]}"
         return out
     out["U_file"] = upath
-    n_calls = sum(1 for e in U["events"] if e["ev"] == "call")
+    n_calls = sum(1 for e in U["events"] if e["ev"] == ck)
     out["n_calls"] = n_calls
     ks = ks_spec(n_calls, U["events"])
     out["ks"] = ks
+    chain_ks = set()
+    if cfg.get("chain") and ck == "call":
+        cand = [k for k in ks if 1 < k]
+        rr = common.make_rng(0, "chain" + cfg["label"] + str(n_calls))
+        rr.shuffle(cand)
+        chain_ks = set(cand[: cfg["chain"]])
 
     def one(k):
         path = wd / f"k{k}.h5"
-        if pre:
+        if base is not None and base.exists():
             shutil.copy(base, path)
-        c = run_child(base_spec(cfg, sc["algo"], path, load=pre, crash_k=k, trace=False, keep_counter=pre), wd, f"C{k}")
+        c = run_child(make_spec(cfg, sc["algo"], path, load=load, erase=erase, crash_k=k, trace=False, keep_counter=load), wd, f"C{k}")
         crash_copy = wd / f"k{k}.crash.h5"
         if path.exists():
             shutil.copy(path, crash_copy)
-        r = run_child(base_spec(cfg, sc["algo"], path, load=True, keep_counter=True), wd, f"R{k}")
-        return k, {"C": c, "R": r, "crash_file": crash_copy, "final_file": path}
+        r = run_child(make_spec(cfg, sc["algo"], path, load=True, keep_counter=True), wd, f"R{k}")
+        d = {"C": c, "R": r, "crash_file": crash_copy, "final_file": path}
+        if k in chain_ks and r["rc"] == 0 and r["out"] is not None:
+            n2 = sum(1 for e in r["events"] if e["ev"] == ck)
+            if n2 >= 1:
+                k2 = common.make_rng(k, "k2" + cfg["label"]).randint(1, n2)
+                p2 = wd / f"k{k}_{k2}.h5"
+                if crash_copy.exists():
+                    shutil.copy(crash_copy, p2)
+                c2 = run_child(make_spec(cfg, sc["algo"], p2, load=True, crash_k=k2, trace=False, keep_counter=True), wd, f"C{k}_{k2}")
+                cc2 = wd / f"k{k}_{k2}.crash.h5"
+                if p2.exists():
+                    shutil.copy(p2, cc2)
+                r2 = run_child(make_spec(cfg, sc["algo"], p2, load=True, keep_counter=True), wd, f"R{k}_{k2}")
+                d["chain"] = {"k2": k2, "C": c2, "R": r2, "crash_file": cc2, "final_file": p2}
+        return k, d
 
     for k, d in pool.map(one, ks):
         out["crashes"][k] = d
@@ -484,8 +559,9 @@ def run_config(cfg: dict[str, Any], ks_spec, pool: ThreadPoolExecutor, wd: Path)
 
 def feasible_best(db, sc) -> Fraction | None:
     best = None
+    obj = sc.get("db_objective", sc["objective"])
     for outs in db.values():
-        if sc["objective"] not in outs:
+        if obj not in outs:
             continue
         ok = True
         for name, ty in sc.get("constraints", []):
@@ -497,150 +573,148 @@ def feasible_best(db, sc) -> Fraction | None:
             else:
                 ok = ok and all(abs(v) <= TOL_EQ for v in outs[name])
         if ok:
-            f = outs[sc["objective"]][0]
+            f = outs[obj][0]
             if best is None or f < best:
                 best = f
     return best
 
 
-def evaluate_config(res: Result, run: dict[str, Any]) -> list[dict[str, Any]]:
-    """Oracle over one configuration. Returns the per-crash data needed by the model comparison."""
+def check_crash(res: Result, cfg, label: str, rp: dict, ref: dict, k: int, d: dict, u_final) -> dict | None:
+    """Oracle for one killed run `d["C"]` (reference: the traced uninterrupted run `ref`) and its
+    restart `d["R"]`. Returns the item used by the model comparison (None: case skipped)."""
+    sc = cfg["scenario"]
+    ec, ei = cfg["each_call"], cfg["each_iter"]
+    ck = crash_kind(cfg)
+    C, R = d["C"], d["R"]
+    ref_final = canon(ref["out"]["db"])
+    ref_pre = canon(ref["out"]["pre"]["loaded"])
+    ref_calls = [e for e in ref["events"] if e["ev"] == ck]
+    c_calls = [e for e in C["events"] if e["ev"] == ck]
+    if C["rc"] != 1 or len(c_calls) != k or any(
+        (a["d"], a.get("in")) != (b["d"], b.get("in")) for a, b in zip(c_calls, ref_calls)
+    ):
+        res.notes.append(f"{label}: killed run not a prefix of the uninterrupted one (rc={C['rc']}, {len(c_calls)} executions) {C['stderr'][-200:]}")
+        res.count("machinery-skip")
+        return None
+    completed, expected = replay_trace(ref["events"], ref_pre, ref_final, ec, ei, ck, k)
+    backup, ok, err = load_backup(d["crash_file"])
+    item = {"k": k, "backup": backup, "expected": expected, "completed": completed, "R": R, "d": d}
+    if backup is None or not ok:
+        res.violate("oracle", "backup-not-loadable", f"{label}: the backup left by the killed run cannot be loaded: {err}", rp)
+        return None
+    diff = db_equal(backup, expected)
+    if diff:
+        what = "the evaluations completed before the crash" if ec else "the database at the last notified iteration"
+        res.violate("oracle", "backup-not-snapshot",
+                    f"{label}: the backup is not {what}: {diff}; backup={show_db(backup)[:300]} expected={show_db(expected)[:300]}", rp)
+    res.count("strict_reading_equal" if not db_equal(backup, completed) else "strict_reading_lags")
+    if backup:
+        res.nontrivial(json.dumps([label]))
+    if any(set(ref_final[x]) - set(o) for x, o in backup.items()):
+        res.count("backup-with-partial-entry")
+    # ---- restart
+    if R["rc"] != 0 or R["out"] is None or R["out"]["error"]:
+        res.violate("oracle", "restart-error",
+                    f"{label}: the restarted run failed: rc={R['rc']} {(R['out'] or {}).get('error')} {R['stderr'][-300:]}", rp)
+        return item
+    r_final = canon(R["out"]["db"])
+    item["r_final"] = r_final
+    item["r_loaded"] = canon(R["out"]["pre"]["loaded"])
+    # no rework: executions at a stored point are bounded by the outputs still missing there
+    execs: dict[tuple, int] = {}
+    for e in R["events"]:
+        if e["ev"] == "call":
+            key = (e["d"], call_point(sc, e))
+            execs[key] = execs.get(key, 0) + 1
+    for (dname, p), n in execs.items():
+        if p in backup:
+            missing = set(r_final.get(p, {})) - set(backup[p])
+            if not n <= len(missing):
+                res.violate("oracle", "rework",
+                            f"{label}: discipline {dname} executed {n} time(s) at the stored point {fl(p)} "
+                            f"although only {sorted(missing)} were missing there", rp)
+    res.count("restart-executions-at-stored-points", sum(n for (_, p), n in execs.items() if p in backup))
+    # loaded entries kept
+    keys = list(r_final)
+    kept = len(keys) >= len(backup)
+    for i, (x, outs) in enumerate(backup.items()):
+        if not kept:
+            break
+        kept = keys[i] == x and all(n in r_final[x] and r_final[x][n] == v for n, v in outs.items())
+    if not kept:
+        res.violate("oracle", "loaded-entries-not-kept",
+                    f"{label}: the final database of the restarted run does not start with the loaded entries", rp)
+    # optimum at least as good as the best loaded one
+    best = feasible_best(backup, sc)
+    result = R["out"]["result"]
+    if best is not None:
+        sign = -1 if sc.get("maximize") else 1
+        good = (result is not None and result["is_feasible"] is True and result["f_opt"] is not None
+                and sign * F(result["f_opt"]) <= best)
+        if not good:
+            res.violate("oracle", "optimum-worse",
+                        f"{label}: best loaded feasible objective {float(best)}, restarted run reports {result}", rp)
+        res.count("optimum-clause-checked")
+    # same history as the uninterrupted run
+    if sc["deterministic"]:
+        diff = db_equal(r_final, u_final)
+        if diff:
+            if only_observables_missing(r_final, u_final, backup, set(sc.get("observables", []))):
+                res.violate("oracle", "replay-differs-observable",
+                            f"{label}: the restarted run does not evaluate the observables at a point loaded from the backup: {diff}", rp)
+            else:
+                res.violate("oracle", "replay-differs",
+                            f"{label}: the restarted run does not end with the history of the uninterrupted run: {diff}", rp)
+        res.count("replay-clause-checked")
+    return item
+
+
+def evaluate_config(res: Result, run: dict[str, Any]) -> None:
+    """Oracle over one configuration; fills run['items'] for the model comparison."""
     cfg = run["cfg"]
     sc = cfg["scenario"]
     label = cfg["label"]
-    items = []
+    run["items"] = []
     if "machinery" in run:
         res.notes.append(f"{label}: {run['machinery']}")
         res.count("machinery-skip")
-        return items
+        return
     U = run["U"]
-    u_final = canon(U["out"]["db"])
-    u_pre = canon(U["out"]["pre"]["loaded"])
-    ec, ei = cfg["each_call"], cfg["each_iter"]
-    u_calls = [e for e in U["events"] if e["ev"] == "call"]
     if U["out"]["error"]:
-        res.violate("oracle", "run-error", f"{label}: the uninterrupted run raised {U['out']['error']}",
-                    {"config": cfg, "k": None})
-        return items
+        res.violate("oracle", "run-error", f"{label}: the uninterrupted run raised {U['out']['error']}", {"config": cfg, "k": None})
+        return
+    u_final = canon(U["out"]["db"])
     for k in run["ks"]:
         d = run["crashes"][k]
-        C, R = d["C"], d["R"]
         res.evaluations += 1
         res.count(f"family:{sc['family']}")
-        res.count(f"mode:{'call' if ec else ''}{'iter' if ei else ''}")
+        res.count(f"mode:{'call' if cfg['each_call'] else ''}{'iter' if cfg['each_iter'] else ''}")
         res.count(f"pre:{cfg['pre']}")
-        rp = {"config": cfg, "k": k}
-        # the killed run must have died where asked, after the same executions as U (determinism)
-        c_calls = [e for e in C["events"] if e["ev"] == "call"]
-        if C["rc"] != 1 or len(c_calls) != k or any(
-            (a["d"], a["in"]) != (b["d"], b["in"]) for a, b in zip(c_calls, u_calls)
-        ):
-            res.notes.append(f"{label} k={k}: killed run not a prefix of the uninterrupted one (rc={C['rc']}, {len(c_calls)} executions) {C['stderr'][-200:]}")
-            res.count("machinery-skip")
+        res.count(f"crash-in:{crash_kind(cfg)}")
+        item = check_crash(res, cfg, f"{label} k={k}", {"config": cfg, "k": k}, U, k, d, u_final)
+        if item is None:
             continue
-        completed, expected = replay_trace(U["events"], u_pre, u_final, ec, ei, k)
-        backup, pb_ok, err = load_backup(d["crash_file"])
-        item = {"k": k, "backup": backup, "expected": expected, "completed": completed, "R": R, "d": d}
-        if backup is None or not pb_ok:
-            res.violate("oracle", "backup-not-loadable", f"{label} k={k}: the backup left by the killed run cannot be loaded: {err}", rp)
-            continue
-        items.append(item)
-        diff = db_equal(backup, expected)
-        if diff:
-            what = "the evaluations completed before the crash" if ec else "the database at the last notified iteration"
-            res.violate("oracle", "backup-not-snapshot",
-                        f"{label} k={k}: the backup is not {what}: {diff}; backup={show_db(backup)[:300]} expected={show_db(expected)[:300]}", rp)
-        strict = db_equal(backup, completed)
-        res.count("strict_reading_equal" if not strict else "strict_reading_lags")
-        if backup:
-            res.nontrivial(json.dumps([label, k]))
-        # ---- restart
-        if R["rc"] != 0 or R["out"] is None or R["out"]["error"]:
-            res.violate("oracle", "restart-error",
-                        f"{label} k={k}: the restarted run failed: rc={R['rc']} {(R['out'] or {}).get('error')} {R['stderr'][-300:]}", rp)
-            continue
-        r_final = canon(R["out"]["db"])
-        r_loaded = canon(R["out"]["pre"]["loaded"])
-        item["r_final"] = r_final
-        item["r_loaded"] = r_loaded
-        # no rework: executions at a stored point are bounded by the outputs still missing there
-        execs: dict[tuple, int] = {}
-        for e in R["events"]:
-            if e["ev"] == "call":
-                key = (e["d"], call_point(sc, e))
-                execs[key] = execs.get(key, 0) + 1
-        for (dname, p), n in execs.items():
-            if p in backup:
-                missing = set(r_final.get(p, {})) - set(backup[p])
-                if not n <= len(missing):
-                    res.violate("oracle", "rework",
-                                f"{label} k={k}: discipline {dname} executed {n} time(s) at the stored point {[float(t) for t in p]} "
-                                f"although only {sorted(missing)} were missing there", rp)
-        # loaded entries kept
-        keys = list(r_final)
-        kept = len(keys) >= len(backup)
-        for i, (x, outs) in enumerate(backup.items()):
-            if not kept:
-                break
-            kept = keys[i] == x and all(n in r_final[x] and r_final[x][n] == v for n, v in outs.items())
-        if not kept:
-            res.violate("oracle", "loaded-entries-not-kept",
-                        f"{label} k={k}: the final database of the restarted run does not start with the loaded entries", rp)
-        # optimum at least as good as the best loaded one
-        best = feasible_best(backup, sc)
-        result = R["out"]["result"]
-        if best is not None:
-            ok = result is not None and result["is_feasible"] is True and result["f_opt"] is not None and F(result["f_opt"]) <= best
-            if not ok:
-                res.violate("oracle", "optimum-worse",
-                            f"{label} k={k}: best loaded feasible objective {float(best)}, restarted run reports {result}", rp)
-            res.count("optimum-clause-checked")
-        # same history as the uninterrupted run
-        if sc["deterministic"]:
-            diff = db_equal(r_final, u_final)
-            if diff:
-                res.violate("oracle", "replay-differs",
-                            f"{label} k={k}: the restarted run does not end with the history of the uninterrupted run: {diff}", rp)
-            res.count("replay-clause-checked")
-    return items
+        run["items"].append(item)
+        ch = d.get("chain")
+        if ch and "r_final" in item:
+            res.evaluations += 1
+            res.count("pre:crashed-twice")
+            it2 = check_crash(res, cfg, f"{label} k={k} then k2={ch['k2']}", {"config": cfg, "k": k, "k2": ch["k2"]},
+                              d["R"], ch["k2"], ch, u_final)
+            if it2 is not None:
+                item["chain_item"] = it2
 
 
 # --------------------------------------------------------------------------- model comparison
 
 
-def req_lines(events, final_db, quiet=False, stop_k=None):
-    """Protocol lines of the requests of a traced run (those issued before the stop_k-th execution and
-    completed), with what the implementation did."""
-    reqs = split_requests(events)
-    lines, obs = [], []
-    for r in reqs:
-        if stop_k is not None and any(c >= stop_k for c in r["calls"]):
-            break
-        if stop_k is not None and not r["calls"] and not r["stored"]:
-            # a served request: keep only if it was issued before the crash
-            pass
-        val = final_db.get(r["x"], {}).get(r["name"], (Fraction(0),))
-        lines.append(f"{'reqq' if quiet else 'req'} {r['name']} {common.rats(r['x'])} {common.rats(val)} {len(r['calls'])}")
-        obs.append(r)
-    return lines, obs
-
-
-def events_before(events, stop_k):
-    out = []
-    for ev in events:
-        if ev["ev"] == "call" and ev["k"] == stop_k:
-            break
-        out.append(ev)
-    return out
-
-
-def budget_of(cfg, algo) -> int:
+def budget_of(algo) -> int:
     return len(algo["samples"]) if "samples" in algo else int(algo["max_iter"])
 
 
 def opt_line(sc) -> str:
     cs = ",".join(f"{n}:{t}" for n, t in sc.get("constraints", [])) or "-"
-    return f"opt {sc['objective']} {cs} {common.rat(TOL_EQ)} {common.rat(TOL_INEQ)}"
+    return f"opt {sc.get('db_objective', sc['objective'])} {cs} {common.rat(TOL_EQ)} {common.rat(TOL_INEQ)}"
 
 
 def parse_state(ans: str) -> dict[str, str]:
@@ -652,41 +726,42 @@ def parse_state(ans: str) -> dict[str, str]:
     return d
 
 
-def model_session(cfg, run, item=None):
-    """Build one driver session. `item=None`: the uninterrupted run with truncation queries;
-    otherwise the crash at item['k'] followed by the restart. Returns (lines, checks) where
-    checks[i] is None or a function answer -> '' | description of the disagreement."""
-    sc = cfg["scenario"]
-    lines: list[str] = []
-    checks: list[Any] = []
+class Session:
+    """One driver session: protocol lines + the check of each answer against the implementation."""
 
-    def add(line, chk=None):
-        lines.append(line)
-        checks.append(chk)
+    def __init__(self, cfg, what: str):
+        self.cfg = cfg
+        self.what = what
+        self.lines: list[str] = []
+        self.checks: list[Any] = []
+        self.ck = crash_kind(cfg)
+        self.add(f"new {int(cfg['each_call'])} {int(cfg['each_iter'])}")
 
-    add(f"new {int(cfg['each_call'])} {int(cfg['each_iter'])}")
-    pre = cfg["pre"] == "earlier"
-    if pre:
-        E = run["E"]
-        e_final = canon(E["out"]["db"])
-        add(f"start {budget_of(cfg, cfg['earlier_algo'])} 1")
-        ls, _ = req_lines(E["events"], e_final, quiet=True)
-        for ln in ls:
-            add(ln)
-        add("finish")
-        add("crashload")
-    U = run["U"]
-    u_final = canon(U["out"]["db"])
-    budget = budget_of(cfg, sc["algo"])
-    u_loaded = show_db(canon(U["out"]["pre"]["loaded"]))
-    add(f"start {budget} {0 if pre else 1}",
-        lambda a: "" if parse_state(a).get("db") == u_loaded and parse_state(a).get("cur") == str(U["out"]["pre"]["counter"])
-        else f"loaded state: model {a[:200]}, implementation db={u_loaded[:200]} cur={U['out']['pre']['counter']}")
+    def add(self, line, chk=None):
+        self.lines.append(line)
+        self.checks.append(chk)
 
-    def req_checks(events, final_db, pre_db, quiet, stop_k=None):
-        ls, obs = req_lines(events, final_db, quiet=quiet, stop_k=stop_k)
-        db = OrderedDict((x, dict(o)) for x, o in pre_db.items())
-        for ln, r in zip(ls, obs):
+    def start(self, budget: int, reset: bool, loaded_db=None, counter=None):
+        chk = None
+        if loaded_db is not None:
+            exp = show_db(loaded_db)
+
+            def chk(a, exp=exp, counter=counter):
+                s = parse_state(a)
+                if s.get("db") == exp and s.get("cur") == str(counter):
+                    return ""
+                return f"state at the start of execute: model {a[:300]}, implementation db={exp[:300]} cur={counter}"
+
+        self.add(f"start {budget} {int(reset)}", chk)
+
+    def requests(self, events, final_db, pre_db, quiet: bool, stop_k=None):
+        """The requests of a traced run (those completed before its stop_k-th crash-point event)."""
+        db = copy_db(pre_db)
+        for r in split_requests(events, self.ck):
+            if stop_k is not None and any(c >= stop_k for c in r["calls"]):
+                break
+            val = final_db.get(r["x"], {}).get(r["name"], (Fraction(0),))
+            ln = f"{'reqq' if quiet else 'req'} {r['name']} {common.rats(r['x'])} {common.rats(val)} {len(r['calls'])}"
             if r["stored"]:
                 exp_out = "computed"
                 ent = db.setdefault(r["x"], {})
@@ -718,105 +793,159 @@ def model_session(cfg, run, item=None):
                     return f"`{ln[:120]}`: database length: model {st}, implementation {exp_n}"
                 return ""
 
-            add(ln, chk)
-        return db
+            self.add(ln, chk)
 
-    if item is None:
-        req_checks(U["events"], u_final, canon(U["out"]["pre"]["loaded"]), quiet=False)
-        fin, _, _ = load_backup(run["U_file"])
+    def finish(self, file_path: Path, final_db, counter, what: str):
+        fin, _, _ = load_backup(file_path)
         fin_s = show_db(fin) if fin is not None else "E"
-        add("finish", lambda a: "" if parse_state(a).get("read") == fin_s and parse_state(a).get("db") == show_db(u_final)
-            and parse_state(a).get("cur") == str(U["out"]["counter"])
-            else f"end of the uninterrupted run: model {a[:400]}; implementation file={fin_s[:200]} db={show_db(u_final)[:200]} cur={U['out']['counter']}")
-        for it in run["items"]:
-            exp = show_db(it["backup"])
-            add(f"trunc {it['k']}", lambda a, exp=exp, k=it["k"]: "" if a == "read=" + exp
-                else f"backup file at crash point {k}: model {a[:300]}, implementation read={exp[:300]}")
-        add_opt(add, sc, U["out"], u_final)
-        return lines, checks
-    k = item["k"]
-    req_checks(U["events"], u_final, canon(U["out"]["pre"]["loaded"]), quiet=True, stop_k=k)
-    R = item["R"]
-    exp_loaded = show_db(item["r_loaded"])
-    exp_cur = str(R["out"]["pre"]["counter"])
-    add("crashload", lambda a: "" if parse_state(a).get("db") == exp_loaded and parse_state(a).get("cur") == exp_cur
-        else f"restart at crash point {k}: model loads {a[:300]}, implementation db={exp_loaded[:300]} cur={exp_cur}")
-    add(f"start {budget} 0")
-    req_checks(R["events"], item["r_final"], item["r_loaded"], quiet=False)
-    fin, _, _ = load_backup(item["d"]["final_file"])
-    fin_s = show_db(fin) if fin is not None else "E"
-    exp_db = show_db(item["r_final"])
-    add("finish", lambda a: "" if parse_state(a).get("read") == fin_s and parse_state(a).get("db") == exp_db
-        and parse_state(a).get("cur") == str(R["out"]["counter"])
-        else f"end of the restarted run (crash point {k}): model {a[:400]}; implementation file={fin_s[:200]} db={exp_db[:200]} cur={R['out']['counter']}")
-    add_opt(add, sc, R["out"], item["r_final"])
-    return lines, checks
+        exp_db = show_db(final_db)
+
+        def chk(a):
+            s = parse_state(a)
+            if s.get("read") == fin_s and s.get("db") == exp_db and s.get("cur") == str(counter):
+                return ""
+            return f"end of {what}: model {a[:500]}; implementation file={fin_s[:250]} db={exp_db[:250]} cur={counter}"
+
+        self.add("finish", chk)
+
+    def crashload(self, loaded_db, counter, what: str):
+        exp = show_db(loaded_db)
+
+        def chk(a):
+            s = parse_state(a)
+            if s.get("db") == exp and s.get("cur") == str(counter):
+                return ""
+            return f"{what}: model loads {a[:300]}, implementation db={exp[:300]} cur={counter}"
+
+        self.add("crashload", chk)
+
+    def trunc(self, k: int, backup):
+        exp = show_db(backup)
+        self.add(f"trunc {k}", lambda a: "" if a == "read=" + exp
+                 else f"backup file at crash point {k}: model {a[:300]}, implementation read={exp[:300]}")
+
+    def optimum(self, out, final_db):
+        sc = self.cfg["scenario"]
+        result = out["result"]
+        if result is None or result["x_opt"] is None or not final_db:
+            return
+        xo = tuple(F(t) for t in result["x_opt"])
+        keys = list(final_db)
+        idxs = [i for i, x in enumerate(keys) if x == xo]
+        obj = sc.get("db_objective", sc["objective"])
+
+        def chk(a):
+            s = parse_state(a)
+            if s.get("idx") in (None, "_"):
+                return f"optimum: model {a}, implementation x_opt={result['x_opt']}"
+            i = int(s["idx"])
+            same_feas = (s.get("feas") == "1") == bool(result["is_feasible"])
+            if i in idxs and same_feas:
+                return ""
+            # ties (same objective value at two points) may be broken either way
+            if i < len(keys) and idxs and same_feas and final_db[keys[i]].get(obj) == final_db[keys[idxs[0]]].get(obj):
+                return ""
+            return f"optimum: model {a}, implementation x_opt={result['x_opt']} feasible={result['is_feasible']}"
+
+        self.add(opt_line(sc), chk)
 
 
-def add_opt(add, sc, out, final_db):
-    result = out["result"]
-    if result is None or result["x_opt"] is None or not final_db:
-        return
-    xo = tuple(F(t) for t in result["x_opt"])
-    keys = list(final_db)
-    idxs = [i for i, x in enumerate(keys) if x == xo]
+def prelude(s: Session, run):
+    """The earlier run E that left the pre-existing file (loaded). An erased file is an absent file."""
+    cfg = run["cfg"]
+    if cfg["pre"] == "earlier":
+        E = run["E"]
+        s.start(budget_of(cfg["earlier_algo"]), True)
+        s.requests(E["events"], canon(E["out"]["db"]), OrderedDict(), quiet=True)
+        s.add("finish")
+        s.add("crashload")
 
-    def chk(a):
-        s = parse_state(a)
-        if s.get("idx") in (None, "_"):
-            return f"optimum: model {a}, implementation x_opt={result['x_opt']}"
-        i = int(s["idx"])
-        if i in idxs and (s.get("feas") == "1") == bool(result["is_feasible"]):
-            return ""
-        # ties broken by float rounding are accepted: same objective value
-        obj = sc["objective"]
-        if i < len(keys) and idxs and final_db[keys[i]].get(obj) == final_db[keys[idxs[0]]].get(obj) and (s.get("feas") == "1") == bool(result["is_feasible"]):
-            return ""
-        return f"optimum: model {a} (point {[float(t) for t in keys[i]] if i < len(keys) else '?'}), implementation x_opt={result['x_opt']} feasible={result['is_feasible']}"
 
-    add(opt_line(sc), chk)
+def sessions_of(run) -> list[Session]:
+    cfg = run["cfg"]
+    sc = cfg["scenario"]
+    U = run["U"]
+    u_final = canon(U["out"]["db"])
+    u_pre = canon(U["out"]["pre"]["loaded"])
+    budget = budget_of(sc["algo"])
+    keep = cfg["pre"] == "earlier"
+    out = []
+    # the uninterrupted run, with one truncation query per crash point
+    s = Session(cfg, "uninterrupted run")
+    prelude(s, run)
+    s.start(budget, not keep, u_pre, U["out"]["pre"]["counter"])
+    s.requests(U["events"], u_final, u_pre, quiet=False)
+    for it in run["items"]:
+        s.trunc(it["k"], it["backup"])
+    s.finish(run["U_file"], u_final, U["out"]["counter"], "the uninterrupted run")
+    s.optimum(U["out"], u_final)
+    out.append(s)
+    for it in run["items"]:
+        if "r_final" not in it:
+            continue
+        k = it["k"]
+        R = it["R"]
+        s = Session(cfg, f"crash point {k} and restart")
+        prelude(s, run)
+        s.start(budget, not keep)
+        s.requests(U["events"], u_final, u_pre, quiet=True, stop_k=k)
+        s.crashload(it["r_loaded"], R["out"]["pre"]["counter"], f"restart at crash point {k}")
+        s.start(budget, False)
+        s.requests(R["events"], it["r_final"], it["r_loaded"], quiet=False)
+        ch = it.get("chain_item")
+        if ch is not None:
+            s.trunc(ch["k"], ch["backup"])
+        s.finish(it["d"]["final_file"], it["r_final"], R["out"]["counter"], f"the restarted run (crash point {k})")
+        s.optimum(R["out"], it["r_final"])
+        out.append(s)
+        if ch is not None and "r_final" in ch:
+            R2 = ch["R"]
+            s = Session(cfg, f"crash point {k}, restart killed at {ch['k']}, second restart")
+            prelude(s, run)
+            s.start(budget, not keep)
+            s.requests(U["events"], u_final, u_pre, quiet=True, stop_k=k)
+            s.add("crashload")
+            s.start(budget, False)
+            s.requests(R["events"], it["r_final"], it["r_loaded"], quiet=True, stop_k=ch["k"])
+            s.crashload(ch["r_loaded"], R2["out"]["pre"]["counter"], "second restart")
+            s.start(budget, False)
+            s.requests(R2["events"], ch["r_final"], ch["r_loaded"], quiet=False)
+            s.finish(ch["d"]["final_file"], ch["r_final"], R2["out"]["counter"], "the second restart")
+            out.append(s)
+    return out
 
 
 def compare_with_model(res: Result, runs: list[dict[str, Any]]):
-    sessions = []
+    sessions: list[tuple[dict, Session]] = []
     for run in runs:
-        if "machinery" in run or not run.get("items") and not run.get("U"):
+        if "machinery" in run or run.get("U") is None or run["U"]["out"] is None or run["U"]["out"]["error"]:
             continue
-        if run["U"]["out"] is None or run["U"]["out"]["error"]:
-            continue
-        cfg = run["cfg"]
         try:
-            sessions.append((run, None, *model_session(cfg, run, None)))
-            for it in run["items"]:
-                if "r_final" in it:
-                    sessions.append((run, it, *model_session(cfg, run, it)))
+            sessions += [(run, s) for s in sessions_of(run)]
         except Exception as e:  # noqa: BLE001
-            res.notes.append(f"{cfg['label']}: could not build the model session: {type(e).__name__}: {e}")
+            res.notes.append(f"{run['cfg']['label']}: could not build the model session: {type(e).__name__}: {e}")
             res.count("machinery-skip")
-    all_lines = [ln for s in sessions for ln in s[2]]
+    all_lines = [ln for _, s in sessions for ln in s.lines]
     if not all_lines:
         return
     answers = common.run_lean_driver(PID, all_lines)
     pos = 0
-    for run, it, lines, checks in sessions:
+    for run, s in sessions:
         ok = True
-        for j, (ln, chk) in enumerate(zip(lines, checks)):
+        for j, (ln, chk) in enumerate(zip(s.lines, s.checks)):
             a = answers[pos + j]
-            bad = "the driver rejected the line" if a == "bad-op" else (chk(a) if chk else "")
+            bad = "the driver rejected the line" if a in ("bad-op", "E") else (chk(a) if chk else "")
             if bad:
                 ok = False
                 res.disagreements += 1
-                cfg = run["cfg"]
-                k = None if it is None else it["k"]
-                run.setdefault("model_disagreements", []).append((k, bad))
+                run.setdefault("model_disagreements", []).append(bad)
                 res.violate(
-                    "correspondence", "model-vs-impl",
-                    f"{cfg['label']}{'' if k is None else f' k={k}'}: {bad}",
-                    {"config": cfg, "k": k, "protocol_lines": [l[:400] for l in lines[: j + 1]][-40:], "model": a[:1500],
-                     "expected": bad, "correspondence": "Driver/C12.lean"},
+                    "correspondence", "model-vs-impl", f"{run['cfg']['label']} ({s.what}): {bad}",
+                    {"config": run["cfg"], "session": s.what, "protocol_lines": [x[:400] for x in s.lines[: j + 1]][-40:],
+                     "model": a[:1500], "expected": bad, "correspondence": "Driver/C12.lean"},
                 )
                 break
-        pos += len(lines)
+        pos += len(s.lines)
         if ok:
             res.traces_validated += 1
 
@@ -824,7 +953,7 @@ def compare_with_model(res: Result, runs: list[dict[str, Any]]):
 # --------------------------------------------------------------------------- crash-point choice
 
 
-def ks_quick(rng: common.Rng, n: int = 6):
+def ks_quick(rng: common.Rng, n: int = 8):
     def choose(n_calls, events):
         if n_calls <= n:
             return list(range(1, n_calls + 1))
@@ -832,14 +961,14 @@ def ks_quick(rng: common.Rng, n: int = 6):
         after_store = []
         prev = None
         for e in events:
-            if e["ev"] == "call" and prev == "store":
+            if e["ev"] in ("call", "jac") and prev == "store":
                 after_store.append(e["k"])
-            if e["ev"] in ("call", "store"):
+            if e["ev"] in ("call", "jac", "store"):
                 prev = e["ev"]
         ks = {1, n_calls}
-        pool = [k for k in after_store if k not in ks]
-        rng.shuffle(pool)
-        ks.update(pool[: n - 3])
+        cand = [k for k in after_store if k not in ks and k <= n_calls]
+        rng.shuffle(cand)
+        ks.update(cand[: n - 3])
         rest = [k for k in range(1, n_calls + 1) if k not in ks]
         rng.shuffle(rest)
         ks.update(rest[: n - len(ks)])
@@ -852,10 +981,14 @@ def ks_all(n_calls, events):  # noqa: ARG001
     return list(range(1, n_calls + 1))
 
 
+def ks_fixed(ks):
+    return lambda n_calls, events: [k for k in ks if k <= n_calls]  # noqa: ARG005
+
+
 # --------------------------------------------------------------------------- run / replay
 
 
-def corpus_configs() -> list[dict[str, Any]]:
+def corpus_cases() -> list[tuple[str, dict, Any]]:
     d = common.CORPUS_DIR / PID
     out = []
     if d.is_dir():
@@ -865,65 +998,116 @@ def corpus_configs() -> list[dict[str, Any]]:
     return out
 
 
-def process(res: Result, cfgs_ks, ctx=None) -> list[dict[str, Any]]:
-    global SERVERS
+def process(res: Result, cfgs_ks, model: bool = True) -> list[dict[str, Any]]:
     runs = []
-    SERVERS = Servers(N_WORKERS)
-    try:
-        runs = _process(cfgs_ks)
-    finally:
-        SERVERS.close()
-        SERVERS = None
+    with ThreadPoolExecutor(max_workers=6) as outer, ThreadPoolExecutor(max_workers=N_WORKERS) as inner:
+        for run in outer.map(lambda ck: run_config(ck[0], ck[1], inner, workdir()), cfgs_ks):
+            runs.append(run)
     for run in runs:
-        run["items"] = evaluate_config(res, run)
-    compare_with_model(res, runs)
+        evaluate_config(res, run)
+    if model:
+        compare_with_model(res, runs)
     return runs
 
 
-def _process(cfgs_ks) -> list[dict[str, Any]]:
-    runs = []
-    with ThreadPoolExecutor(max_workers=6) as pool:
-        # configurations are independent: run their E/U phases concurrently too
-        def do(ck):
-            cfg, ks_spec = ck
-            return run_config(cfg, ks_spec, pool2, workdir())
+def shrink(res: Result, deadline: float) -> None:
+    """Replace the replay of each oracle violation by a smaller failing case when one is found:
+    fewer samples / iterations, smallest crash point. Shrunk cases are generated like the original
+    ones (sub-lists of samples, smaller budgets), so they stay inside the property's quantifier."""
+    for v in res.violations:
+        if v.kind != "oracle" or "config" not in v.replay or time.time() > deadline:
+            continue
+        cfg = copy.deepcopy(v.replay["config"])
+        cfg["chain"] = 0 if "k2" not in v.replay else cfg.get("chain", 0)
+        best = None
+        algo = cfg["scenario"]["algo"]
+        cands = []
+        if "samples" in algo:
+            n = len(algo["samples"])
+            for m in range(1, n):
+                c = copy.deepcopy(cfg)
+                c["scenario"]["algo"]["samples"] = algo["samples"][:m]
+                cands.append(c)
+        else:
+            for m in range(1, int(algo["max_iter"])):
+                c = copy.deepcopy(cfg)
+                c["scenario"]["algo"]["max_iter"] = m
+                cands.append(c)
+        for c in cands:
+            if time.time() > deadline:
+                break
+            if c["pre"] in ("earlier", "erase"):
+                c["earlier_algo"] = earlier_algo(c["scenario"], common.make_rng(0, "shrink"))
+            c["label"] = cfg["label"] + "/shrunk"
+            tmp = Result(PID)
+            process(tmp, [(c, ks_all)], model=False)
+            hits = [w for w in tmp.violations if w.kind == "oracle" and w.key == v.key]
+            if hits:
+                best = hits[0]
+                break
+        if best is not None:
+            v.what = best.what + "  [shrunk from: " + v.what[:160] + "]"
+            v.replay = best.replay
 
-        with ThreadPoolExecutor(max_workers=N_WORKERS) as pool2:
-            for run in pool.map(do, cfgs_ks):
-                runs.append(run)
-    return runs
+
+def neighbours(cfg) -> list[dict[str, Any]]:
+    """Failing-input search around a configuration on which model and implementation disagree: the
+    same scenario under every mode and initial-file state, every crash point."""
+    rng = common.make_rng(0, "nb" + cfg["label"])
+    out = []
+    for mode in MODES:
+        for pre in ("absent", "earlier", "erase"):
+            c = make_cfg(cfg["scenario"], mode, pre, rng, crash_in=cfg.get("crash_in", "run"), chain=1)
+            if c["label"] != cfg["label"]:
+                out.append(c)
+    return out
 
 
 def run(ctx) -> Result:
     res = Result(PID)
     res.rule = (
-        "one case = (scenario, backup mode, initial file, crash point k): the run is killed inside its k-th discipline "
-        "execution in a child process, its backup is loaded and compared, it is restarted in a new process; "
-        "non-trivial = the backup holds at least one entry; distinct by (configuration, k). Scenario families: DOE / SLSQP, "
-        "DisciplinaryOpt / MDF chain, discipline caches on (complete entries) / off (crashes between two functions of one "
-        "point), observables, repeated samples, normalised or not; modes each-call / each-iteration (/ both, thorough); "
-        "file absent / left by an earlier shorter run and loaded"
+        "one case = (scenario, backup mode, initial file, crash point k [, second crash point]): the run is killed inside "
+        "its k-th discipline execution (or Jacobian computation) in a child process, its backup is loaded and compared, "
+        "it is restarted in a new process; non-trivial = the backup holds at least one entry; distinct by (configuration, k). "
+        "Scenario families: DOE / SLSQP, DisciplinaryOpt / MDF chain, discipline caches on (complete entries) / off (crashes "
+        "between two functions of one point), observables, vector constraints, equality constraints, maximisation, repeated "
+        "samples, > 10 entries, normalised or not; modes each-call / each-iteration / both; file absent / left by an "
+        "earlier shorter run and loaded / erased / left by an earlier crash (chains)"
     )
     res.assumptions = [
-        "the process dies inside a discipline execution (os._exit in the discipline body), never during an HDF5 write",
+        "the process dies inside a discipline execution or Jacobian computation (os._exit in the discipline body), never during an HDF5 write",
         "restart = new process, same scenario, set_optimization_history_backup(load=True), reset_iteration_counters=False",
         "file present but neither erased nor loaded: outside the property (not generated)",
         "value equality is on flattened arrays (scalar / size-1 array kinds are C11's concern)",
     ]
     rng = ctx.rng
-    cfgs_ks = []
-    for name, cfg, ks in corpus_configs():
-        res.count("corpus")
-        cfgs_ks.append((cfg, (lambda n, ev, ks=ks: [k for k in ks if k <= n]) if ks else ks_all))
-    for cfg in gen_configs(rng, ctx.thorough):
-        cfgs_ks.append((cfg, ks_all if ctx.thorough else ks_quick(common.make_rng(ctx.seed, "ks" + cfg["label"]))))
-    runs = process(res, cfgs_ks, ctx)
-    res.sample({"configurations": [r["cfg"]["label"] + f" K={r.get('n_calls')} ks={r.get('ks')}" for r in runs][:40]})
-    for r in runs[:2]:
-        if r.get("items"):
-            it = r["items"][0]
-            res.sample({"config": r["cfg"]["label"], "k": it["k"], "backup": show_db(it["backup"])[:300]})
-    res.extra["child_runs"] = sum((1 if "E" in r else 0) + (1 if "U" in r else 0) + 2 * len(r.get("crashes", {})) for r in runs)
+    try:
+        cfgs_ks = []
+        for _name, cfg, ks in corpus_cases():
+            res.count("corpus")
+            cfgs_ks.append((cfg, ks_fixed(ks) if ks else ks_all))
+        for cfg in gen_configs(rng, ctx.thorough):
+            cfgs_ks.append((cfg, ks_all if ctx.thorough else ks_quick(common.make_rng(ctx.seed, "ks" + cfg["label"]))))
+        runs = process(res, cfgs_ks)
+        # model and implementation disagree but the oracle holds: look for a failing input nearby
+        if any(v.kind == "correspondence" for v in res.violations) and not any(v.kind == "oracle" for v in res.violations):
+            bad = [r["cfg"] for r in runs if r.get("model_disagreements")][:2]
+            extra = [(c, ks_all) for cfg in bad for c in neighbours(cfg)]
+            if extra and time.time() < ctx.deadline:
+                res.count("failing-input-search-configs", len(extra))
+                process(res, extra, model=False)
+        if any(v.kind == "oracle" for v in res.violations):
+            shrink(res, min(ctx.deadline, time.time() + (600 if ctx.thorough else 90)))
+        res.sample({"configurations": [r["cfg"]["label"] + f" K={r.get('n_calls')} ks={r.get('ks')}" for r in runs][:60]})
+        for r in runs[:2]:
+            if r.get("items"):
+                it = r["items"][-1]
+                res.sample({"config": r["cfg"]["label"], "k": it["k"], "backup": show_db(it["backup"])[:300]})
+        res.extra["child_runs"] = sum(
+            (1 if "E" in r else 0) + (1 if "U" in r else 0) + sum(2 + (2 if "chain" in d else 0) for d in r.get("crashes", {}).values())
+            for r in runs)
+    finally:
+        close_servers()
     res.exhaustive = False
     return res
 
@@ -932,15 +1116,20 @@ def replay(path: str) -> int:
     data = json.loads(Path(path).read_text())
     rp = data.get("replay", data)
     cfg = rp["config"]
-    k = rp.get("k")
+    k = rp.get("k") or (rp.get("ks") or [None])[0]
     res = Result(PID)
-    ks = (lambda n, ev: [k] if k <= n else []) if k else ks_all
-    runs = process(res, [(cfg, ks)])
+    try:
+        runs = process(res, [(cfg, ks_fixed([k]) if k else ks_all)])
+    finally:
+        close_servers()
     for r in runs:
-        print("configuration:", cfg["label"], "executions:", r.get("n_calls"), "crash points:", r.get("ks"), r.get("machinery", ""))
+        print("configuration:", cfg["label"], "| crash-point events in the uninterrupted run:", r.get("n_calls"),
+              "| crash points:", r.get("ks"), r.get("machinery", ""))
         for it in r.get("items", []):
-            print(f" k={it['k']} backup={show_db(it['backup'])[:400]}")
-            print(f"      expected={show_db(it['expected'])[:400]}")
+            print(f" k={it['k']} backup  ={show_db(it['backup'])[:500]}")
+            print(f"      expected={show_db(it['expected'])[:500]}")
+            if "r_final" in it:
+                print(f"      restart ={show_db(it['r_final'])[:500]}")
     bad = 0
     for v in res.violations:
         print(("ORACLE FAILS: " if v.kind == "oracle" else "MODEL/IMPLEMENTATION DISAGREE: ") + v.key, v.what[:800])
